@@ -37,6 +37,8 @@ func init() {
 			"that every subscriptionUpdater callback enters the resolver only under updater.mu after the done/ctx gate; and that handleTriggerUpdate joins its workers. " +
 			"It does not decide ordering or exactness of the delivered messages (value/ history level).",
 		Mutants: []Mutant{
+			{Name: "the event's string value is quoted as it is written in the JSON text (reverts the F102 fix)", File: "v2/pkg/engine/resolve/subscription_filter.go", Rule: "C12-R11", Key: "SubscriptionFieldFilter.SkipEvent/raw-content-decoded-before-encoded:expected",
+				Old: "\t\texpected = unescaped\n", New: "\t\t_ = unescaped\n"},
 			{Name: "heartbeats no longer ask whether the terminal frame was written (reverts part of the F76 fix)", File: resolveGo, Rule: "C12-R10", Key: "sendHeartbeat",
 				Old: "\tif s.removed.Load() || s.terminated {\n\t\treturn nil\n\t}\n\treturn s.writer.Heartbeat()", New: "\tif s.removed.Load() {\n\t\treturn nil\n\t}\n\treturn s.writer.Heartbeat()"},
 			{Name: "complete() does not record the terminal frame (reverts part of the F76 fix)", File: resolveGo, Rule: "C12-R10", Key: "subscriptionState.complete/terminal-frame-recorded",
@@ -118,6 +120,7 @@ func runC12(r *fw.Run) {
 	defer c12FilterErrorsDoNotSilenceOthers(r)
 	defer c12EverySubscriberIsFiltered(r)
 	defer c12LoopInvariantInputs(r)
+	defer c12RawStringContentIsDecodedBeforeItIsEncoded(r)
 	defer c12ConnectionIndexMirrorsRegistration(r)
 	p := r.Prog
 	if p.Named("resolve", "subscriptionState") == nil {
@@ -896,4 +899,152 @@ func c12LoopInvariantInputs(r *fw.Run) {
 	}
 	r.Pass("C12-R9", "filter-loops-scanned", "-", itoa(n)+" loops of subscription_filter.go examined", n > 0)
 	r.Expect("C12-R9", "loops in subscription_filter.go", n, 1)
+}
+
+// c12RawStringContentIsDecodedBeforeItIsEncoded (R11): jsonparser.Get returns the value of a JSON string raw — without the
+// quotes and with its escape sequences as written. Rendering such bytes "as a JSON string" (json.Marshal(string(x)),
+// strconv.Quote) escapes the escape sequences a second time: a subscription filter on a string field then never matches a
+// value that contains a quote, a backslash or a line break, and the event is silently dropped for a subscriber whose filter
+// it passes. Rule (typestate, one correlated fact): in package resolve, where bytes obtained from jsonparser.Get reach a JSON
+// string encoder, every path to that call has re-assigned them from jsonparser.Unescape / ParseString, or has taken the
+// edge on which the value's data type (the second result of the same Get) is not String.
+func c12RawStringContentIsDecodedBeforeItIsEncoded(r *fw.Run) {
+	p := r.Prog
+	r.Rule("C12-R11", "bytes obtained from jsonparser.Get reach a JSON string encoder (json.Marshal, strconv.Quote) only after they were re-assigned from jsonparser.Unescape / ParseString, or on the edge on which their data type is not String")
+	isJP := func(fn *types.Func, names ...string) bool {
+		if fn == nil || fn.Pkg() == nil || !strings.HasSuffix(fn.Pkg().Path(), "buger/jsonparser") {
+			return false
+		}
+		for _, n := range names {
+			if fn.Name() == n {
+				return true
+			}
+		}
+		return false
+	}
+	n := 0
+	for _, fi := range p.Funcs("resolve") {
+		info := fi.Info()
+		// raw locals and the data type local of the same Get
+		raw := map[types.Object]types.Object{} // value local -> data type local
+		fw.WalkAll(fi.Decl.Body, func(nd ast.Node) bool {
+			as, ok := nd.(*ast.AssignStmt)
+			if !ok || len(as.Rhs) != 1 || len(as.Lhs) < 2 {
+				return true
+			}
+			c, isC := ast.Unparen(as.Rhs[0]).(*ast.CallExpr)
+			if !isC || !isJP(fw.Callee(info, c), "Get") {
+				return true
+			}
+			v, isV := as.Lhs[0].(*ast.Ident)
+			dt, isD := as.Lhs[1].(*ast.Ident)
+			if isV && isD && v.Name != "_" {
+				raw[info.ObjectOf(v)] = info.ObjectOf(dt)
+			}
+			return true
+		})
+		if len(raw) == 0 {
+			continue
+		}
+		mentions := func(e ast.Node) types.Object {
+			var hit types.Object
+			fw.WalkAll(e, func(x ast.Node) bool {
+				if id, ok := x.(*ast.Ident); ok {
+					if _, is := raw[info.Uses[id]]; is {
+						hit = info.Uses[id]
+					}
+				}
+				return true
+			})
+			return hit
+		}
+		seen := map[string]bool{}
+		in := fw.NewInterp(fi)
+		in.H = fw.Hooks{
+			Lit: func(l *ast.FuncLit, ctx fw.LitCtx, st *fw.State) fw.LitMode { return fw.LitSkip },
+			Cond: func(e ast.Expr, branch bool, st *fw.State) {
+				a := fw.Atom(info, e, branch)
+				if a.Kind != "Ne" {
+					return
+				}
+				for v, dt := range raw {
+					for _, side := range []ast.Expr{a.X, a.Y} {
+						if id, ok := ast.Unparen(side).(*ast.Ident); ok && info.Uses[id] == dt {
+							other := a.Y
+							if side == a.Y {
+								other = a.X
+							}
+							if k := fw.ConstObjOrVar(info, other); k == "String" {
+								st.Set("settled:" + v.Name())
+							}
+						}
+					}
+				}
+			},
+			Node: func(nd ast.Node, st *fw.State) {
+				switch x := nd.(type) {
+				case *ast.AssignStmt:
+					if len(x.Lhs) == len(x.Rhs) {
+						for i, l := range x.Lhs {
+							id, ok := l.(*ast.Ident)
+							if !ok {
+								continue
+							}
+							if _, is := raw[info.ObjectOf(id)]; !is {
+								continue
+							}
+							// decoded directly, or from a local that holds the result of a decoder
+							if src, isID := ast.Unparen(x.Rhs[i]).(*ast.Ident); isID && st.Must("decoded-local:"+src.Name) {
+								st.Set("settled:" + id.Name)
+							}
+							if c, isC := ast.Unparen(x.Rhs[i]).(*ast.CallExpr); isC && isJP(fw.Callee(info, c), "Unescape", "ParseString") {
+								st.Set("settled:" + id.Name)
+							}
+						}
+					}
+					if len(x.Rhs) == 1 {
+						if c, isC := ast.Unparen(x.Rhs[0]).(*ast.CallExpr); isC {
+							fn := fw.Callee(info, c)
+							if isJP(fn, "Unescape", "ParseString") && len(c.Args) > 0 && mentions(c.Args[0]) != nil {
+								if id, ok := x.Lhs[0].(*ast.Ident); ok {
+									st.Set("decoded-local:" + id.Name)
+								}
+							}
+							if isJP(fn, "Get") {
+								if id, ok := x.Lhs[0].(*ast.Ident); ok {
+									st.Kill("settled:" + id.Name)
+								}
+							}
+						}
+					}
+				case *ast.CallExpr:
+					fn := fw.Callee(info, x)
+					if fn == nil || fn.Pkg() == nil || !in.Final() {
+						return
+					}
+					isEncoder := (fn.Pkg().Path() == "encoding/json" && fn.Name() == "Marshal") || (fn.Pkg().Path() == "strconv" && strings.HasPrefix(fn.Name(), "Quote"))
+					if !isEncoder || len(x.Args) == 0 {
+						return
+					}
+					v := mentions(x.Args[0])
+					if v == nil {
+						return
+					}
+					key := fi.Name() + "/raw-content-decoded-before-encoded:" + v.Name()
+					okNow := st.Must("settled:" + v.Name())
+					if seen[key] && okNow {
+						return
+					}
+					if !seen[key] {
+						n++
+					}
+					seen[key] = true
+					r.Check(okNow, "C12-R11", key, p.Pos(x.Pos()), v.Name()+" in "+fi.Name()+" is decoded before it is rendered as a JSON string",
+						v.Name()+" holds what jsonparser.Get returned — the content of a JSON string as it is written, escape sequences included — and is rendered as a JSON string again on a path that did not decode it: the escape sequences are escaped a second time. Event `{\"id\":\"a\\\"b\"}`, filter value `a\"b`: the quoted form is `\"a\\\\\\\"b\"`, no rendering of the subscriber's value equals it, SkipEvent answers true and the event is dropped for a subscriber whose filter it passes")
+				}
+			},
+		}
+		in.Run(nil)
+	}
+	r.Expect("C12-R11", "JSON string encoders fed from jsonparser.Get in package resolve", n, 1)
 }
